@@ -209,6 +209,13 @@ func (s *Solver) Check(lits []Lit, wantModel bool) (SatResult, map[string]uint64
 		n++
 	}
 	s.sb.WriteString("))\n")
+	if n == 0 {
+		// nothing left to assume (cvc5 rejects an empty list)
+		txt := s.sb.String()
+		txt = txt[:len(txt)-len("(check-sat-assuming ())\n")] + "(check-sat)\n"
+		s.sb.Reset()
+		s.sb.WriteString(txt)
+	}
 	s.Queries++
 	s.qsince++
 	t0 := time.Now()
